@@ -13,11 +13,11 @@ import (
 
 	"github.com/pingcap/kvproto/pkg/pdpb"
 	"github.com/tikv/pd/pkg/grpcutil"
-	"google.golang.org/grpc"
 	"github.com/tikv/pd/pkg/typeutil"
 	"github.com/tikv/pd/server"
 	"github.com/tikv/pd/server/config"
 	"github.com/tikv/pd/server/tso"
+	"google.golang.org/grpc"
 
 	"pdverif/internal/res"
 	"pdverif/internal/srv15"
@@ -450,7 +450,7 @@ func clusterPhase(R *res.Result, p *prepared) {
 							fmt.Sprintf("timestamp (%d,%d) was returned by the allocator of %s (suffix %d, width %d) and by the allocator of %s (suffix %d, width %d)",
 								key[0], key[1], o.dc, suffix[o.dc], o.ts.SuffixBits, dc, suffix[dc], l.SuffixBits),
 							map[string]interface{}{"timestamp": key, "first": o.dc, "second": dc, "suffixes": suffix,
-								"widths": map[string]uint32{o.dc: o.ts.SuffixBits, dc: l.SuffixBits},
+								"widths":  map[string]uint32{o.dc: o.ts.SuffixBits, dc: l.SuffixBits},
 								"history": "3 members dc-1..dc-3 (suffix width 2); dc-4 and dc-5 join, the PD leader assigns suffixes 4 and 5 and serves them with width 3; the other members have not refreshed their width yet (ClusterDCLocationChecker runs once a minute); Global request levels the memories; Local batches of 24"})
 					}
 					seen[key] = ans{dc, l}
